@@ -166,6 +166,7 @@ func Union[T comparable](l1, l2 []T) []T {
 	for key := range s {
 		r = append(r, key)
 	}
+	VerifReorder(r)
 
 	return r
 }
@@ -257,6 +258,7 @@ func Unique[T comparable](target []T) []T {
 	for key := range s {
 		r = append(r, key)
 	}
+	VerifReorder(r)
 
 	return r
 }
